@@ -1,10 +1,19 @@
 package c15
 
 import (
+	"bytes"
+	"context"
 	"fmt"
+	"io"
+	"net/http"
 	"strings"
 	"testing"
+	"testing/synctest"
 	"time"
+
+	connect "github.com/bufbuild/connect-go"
+	"github.com/bufbuild/connect-go/verif/memnet"
+	"github.com/bufbuild/connect-go/verif/refwire"
 
 	"github.com/bufbuild/connect-go/verif/pbt"
 	"github.com/bufbuild/connect-go/verif/prog"
@@ -281,4 +290,226 @@ var spec = pbt.Spec[Case]{
 }
 
 func TestInstants(t *testing.T) { pbt.Run(t, spec) }
-func TestReplay(t *testing.T)   { pbt.ReplayMain(t, pbt.Replayer(spec)) }
+func TestReplay(t *testing.T) {
+	pbt.ReplayMain(t, pbt.Replayer(spec), pbt.Replayer(specPartial), pbt.Replayer(specServerExpiry))
+}
+
+// ---------- the context ends while a frame has only partly arrived ----------
+
+type PartialCase struct {
+	Protocol  string `json:"protocol"`
+	Kind      string `json:"kind"` // server | bidi
+	Transport string `json:"transport"`
+	Mode      string `json:"mode"`     // cancel | deadline
+	Complete  int    `json:"complete"` // complete messages before the partial frame
+	Partial   int    `json:"partial"`  // bytes of the next frame that arrive (1..4: inside the prefix)
+}
+
+func checkPartial(tt *testing.T, c PartialCase) (pbt.Info, error) {
+	var info pbt.Info
+	info.Label("proto:" + c.Protocol)
+	info.Label("transport:" + c.Transport)
+	info.NonTrivial = true
+	if c.Partial < 5 {
+		info.Label("context-ends-inside-prefix")
+	} else {
+		info.Label("context-ends-inside-payload")
+	}
+	want := uint32(1)
+	if c.Mode == "deadline" {
+		want = 4
+	}
+	var frames []byte
+	var msgs []prog.Msg
+	for i := 0; i < c.Complete; i++ {
+		m := prog.Msg{N: int64(i + 1), TLen: 20, TSeed: i}
+		msgs = append(msgs, m)
+		frames = refwire.AppendFrame(frames, 0, refwire.EncodePing("proto", m.N, m.Text()))
+	}
+	next := refwire.AppendFrame(nil, 0, refwire.EncodePing("proto", 99, strings.Repeat("p", 40)))
+	frames = append(frames, next[:min(c.Partial, len(next)-1)]...)
+	raw := http.HandlerFunc(func(w http.ResponseWriter, r *http.Request) {
+		w.Header().Set("Content-Type", r.Header.Get("Content-Type"))
+		w.WriteHeader(200)
+		_, _ = w.Write(frames)
+		if f, ok := w.(http.Flusher); ok {
+			f.Flush()
+		}
+		<-r.Context().Done() // a peer that stalls in mid-frame
+	})
+	var res *prog.CResult
+	var left []string
+	const T = 10 * time.Second
+	berr := pbt.Bubble(tt, func() error {
+		var hc connect.HTTPClient
+		var pn *memnet.PipeNet
+		if c.Transport == "h2c" {
+			pn = memnet.NewPipeNet(raw, true)
+			hc = pn.Client
+		} else {
+			hc = &memnet.Mem{Handler: raw}
+		}
+		ctx, cancel := context.WithCancel(context.Background())
+		defer cancel()
+		if c.Mode == "deadline" {
+			var c2 context.CancelFunc
+			ctx, c2 = context.WithTimeout(ctx, T)
+			defer c2()
+		} else {
+			time.AfterFunc(T, cancel)
+		}
+		cfg := prog.Config{Protocol: c.Protocol, Codec: "proto", Kind: c.Kind}
+		cp := &prog.ClientProg{Msgs: []prog.Msg{{N: 1}}}
+		if c.Kind == prog.Bidi {
+			cp.Ops = []prog.COp{{Op: "send", Msg: &prog.Msg{N: 1}}, {Op: "recvall"}, {Op: "recv"}, {Op: "closeresp"}}
+		}
+		res = prog.RunClient(ctx, hc, cfg, cp, cancel)
+		time.Sleep(30 * time.Second)
+		synctest.Wait()
+		left = sched.Leftovers()
+		cancel()
+		if pn != nil {
+			pn.Close()
+		}
+		time.Sleep(time.Second)
+		synctest.Wait()
+		return nil
+	})
+	where := fmt.Sprintf("%s %s over %s: %d complete messages, then %d bytes of the next frame, then the context ends (%s)", c.Protocol, c.Kind, c.Transport, c.Complete, c.Partial, c.Mode)
+	if berr != nil {
+		return info, fmt.Errorf("%s: an operation never returned: %v", where, firstLines(berr.Error(), 20))
+	}
+	if len(res.Received) != c.Complete {
+		return info, fmt.Errorf("%s: %d complete messages delivered", where, len(res.Received))
+	}
+	if res.CleanEnd || res.Err == nil {
+		return info, fmt.Errorf("%s: the call did not fail", where)
+	}
+	if !res.Err.IsConnect || res.Err.Code != want {
+		return info, fmt.Errorf("%s: Receive failed with %v, want code %s", where, res.Err, codeName(want))
+	}
+	for _, o := range res.Ops {
+		if o.Err != nil && o.Op != "send" && !(o.Err.IsConnect && o.Err.Code == want) {
+			return info, fmt.Errorf("%s: %s failed with %v, want code %s", where, o.Op, o.Err, codeName(want))
+		}
+	}
+	if res.CloseErr != nil && !(res.CloseErr.IsConnect && res.CloseErr.Code == want) {
+		return info, fmt.Errorf("%s: Close failed with %v, want code %s", where, res.CloseErr, codeName(want))
+	}
+	if len(left) > 0 {
+		return info, fmt.Errorf("%s: %d library goroutine(s) remain:\n%s", where, len(left), firstLines(left[0], 25))
+	}
+	return info, nil
+}
+
+var specPartial = pbt.Spec[PartialCase]{
+	Prop: "C15", Name: "partial-frame",
+	Gen: func(t *rapid.T) PartialCase {
+		return PartialCase{
+			Protocol:  rapid.SampledFrom(prog.Protocols).Draw(t, "protocol"),
+			Kind:      rapid.SampledFrom([]string{prog.Server, prog.Bidi}).Draw(t, "kind"),
+			Transport: rapid.SampledFrom([]string{"mem", "h2c"}).Draw(t, "transport"),
+			Mode:      rapid.SampledFrom([]string{"cancel", "deadline"}).Draw(t, "mode"),
+			Complete:  rapid.IntRange(0, 3).Draw(t, "complete"),
+			Partial:   rapid.SampledFrom([]int{1, 2, 3, 4, 5, 6, 20}).Draw(t, "partial"),
+		}
+	},
+	Check: checkPartial,
+	Rule:  "a raw peer sends k complete messages and then only the first 1..4 bytes of the next envelope prefix (or part of its payload) and stalls; the client's context is cancelled or expires while Receive is blocked on the rest (3 protocols × {server, bidi} × {in-memory, real h2c}, virtual time); oracle: the complete messages are delivered, the blocked Receive and any later operation fail with canceled / deadline_exceeded, nothing hangs, no library goroutine remains; every case is non-trivial",
+}
+
+func TestPartialFrame(t *testing.T) { pbt.Run(t, specPartial) }
+
+// ---------- the handler's deadline expires before / while it runs (server-side view) ----------
+
+type ServerExpiryCase struct {
+	Protocol string `json:"protocol"`
+	Kind     string `json:"kind"`
+	Mode     string `json:"mode"` // deadline (timeout header expires) | cancel (request context cancelled)
+	SlowBody bool   `json:"slow_body"`
+}
+
+type slowReader struct {
+	r     *bytes.Reader
+	delay time.Duration
+	slept bool
+}
+
+func (s *slowReader) Read(p []byte) (int, error) {
+	if !s.slept {
+		s.slept = true
+		time.Sleep(s.delay)
+	}
+	return s.r.Read(p)
+}
+
+func checkServerExpiry(tt *testing.T, c ServerExpiryCase) (pbt.Info, error) {
+	info := pbt.Info{NonTrivial: true}
+	info.Label("proto:" + c.Protocol)
+	info.Label("kind:" + c.Kind)
+	info.Label("mode:" + c.Mode)
+	want := uint32(4)
+	if c.Mode == "cancel" {
+		want = 1
+	}
+	log := &prog.HLog{}
+	hp := &prog.HandlerProg{Final: &prog.ErrSpec{CtxErr: true}, Resp: &prog.Msg{N: 1}}
+	if c.Kind == prog.Client || c.Kind == prog.Bidi {
+		hp.Steps = []prog.HStep{{Op: "recv", N: 1}}
+	}
+	h := prog.NewHandler(c.Kind, hp, log)
+	spec := &refwire.ReqSpec{Protocol: c.Protocol, Kind: c.Kind, Codec: "proto", Msgs: [][]byte{refwire.EncodePing("proto", 1, "x")}}
+	if c.Mode == "deadline" {
+		spec.Timeout = "5m" // 5 ms for gRPC
+		if c.Protocol == "connect" {
+			spec.Timeout = "5"
+		}
+	}
+	req := refwire.BuildRequest(spec)
+	var rec *memnet.Recorded
+	berr := pbt.Bubble(tt, func() error {
+		ctx, cancel := context.WithCancel(context.Background())
+		defer cancel()
+		if c.Mode == "cancel" {
+			time.AfterFunc(5*time.Millisecond, cancel)
+		}
+		var body io.Reader = bytes.NewReader(req.Body)
+		if c.SlowBody {
+			// the request body arrives only after the deadline / cancellation
+			body = &slowReader{r: bytes.NewReader(req.Body), delay: 20 * time.Millisecond}
+		}
+		rec = memnet.Serve(h, "POST", prog.Procedure(c.Kind), req.Header, body, memnet.ServeOpts{Ctx: ctx})
+		return nil
+	})
+	where := fmt.Sprintf("%s %s handler whose context ends (%s) %s", c.Protocol, c.Kind, c.Mode, map[bool]string{true: "before the request body has arrived (before user code runs)", false: "while user code waits on it"}[c.SlowBody])
+	if berr != nil {
+		return info, fmt.Errorf("%s: %v", where, berr)
+	}
+	if rec.Panicked {
+		return info, fmt.Errorf("%s: panic %v", where, rec.PanicValue)
+	}
+	dec, derr := refwire.DecodeResponse(c.Protocol, c.Kind, req.Header.Get("Content-Type"), &refwire.Response{Status: rec.Status, Header: rec.Header, Body: rec.Body, Trailer: rec.Trailer})
+	if derr != nil {
+		return info, fmt.Errorf("%s: response not well-formed: %v", where, derr)
+	}
+	if dec.Status.Code != want {
+		return info, fmt.Errorf("%s: the response carries code %d %q, want %s", where, dec.Status.Code, dec.Status.Message, codeName(want))
+	}
+	return info, nil
+}
+
+var specServerExpiry = pbt.Spec[ServerExpiryCase]{
+	Prop: "C15", Name: "server-side-expiry",
+	Gen: func(t *rapid.T) ServerExpiryCase {
+		return ServerExpiryCase{
+			Protocol: rapid.SampledFrom(prog.Protocols).Draw(t, "protocol"),
+			Kind:     rapid.SampledFrom(prog.Kinds).Draw(t, "kind"),
+			Mode:     rapid.SampledFrom([]string{"deadline", "cancel"}).Draw(t, "mode"),
+			SlowBody: rapid.Bool().Draw(t, "slowbody"),
+		}
+	},
+	Check: checkServerExpiry,
+	Rule:  "reference-client requests served synchronously in virtual time: the handler's context ends through the propagated timeout (5 ms) or through cancellation of the request context, either before the request body has arrived (so before user code is invoked) or while user code waits on ctx.Done() and returns ctx.Err(); oracle (independent decoder on the raw response): the status is deadline_exceeded resp. canceled; 3 protocols × 4 kinds; every case is non-trivial",
+}
+
+func TestServerSideExpiry(t *testing.T) { pbt.Run(t, specServerExpiry) }
